@@ -34,6 +34,7 @@ except Exception:
     pass
 
 import audit  # noqa: E402
+import anchors  # noqa: E402
 import proto  # noqa: E402
 import plan as PLAN  # noqa: E402
 from core import record_fromjson  # noqa: E402
@@ -226,10 +227,21 @@ def main_check(pid, tier, seed, write_evidence=True):
     import multiprocessing as mp
     pool = mp.get_context("fork").Pool(min(16, os.cpu_count() or 1)) if tier == "thorough" or spec.get("parallel") else None
     broken_corr = []    # (comp, rec, mismatch)
+    cov = None
+    try:
+        import coverage
+        cov = coverage.Coverage(data_file=None, include=[os.path.join(anchors.REPO, "pymoode", "*")], branch=False)
+    except Exception:
+        cov = None
     try:
         for ci, (comp, nq, nt) in enumerate(spec["components"]):
             mod = comp_module(comp)
             n = nq if tier == "quick" else nt
+            dr = anchors.drift(comp)
+            if dr:
+                # the anchored source differs from what the model was aligned with: search harder there
+                stats.setdefault("drift", {})[comp] = dr
+                n = n * (5 if tier == "quick" else 2)
             rng = np.random.RandomState((seed * 1000003 + ci * 7919 + 17) % (2**31 - 1))
             cases = []
             if hasattr(mod, "corpus"):
@@ -237,7 +249,18 @@ def main_check(pid, tier, seed, write_evidence=True):
             gargs = dict(spec.get("gen_args", {}).get(comp, {}))
             gargs.update(spec.get("gen_args_" + tier, {}).get(comp, {}))
             cases.extend(mod.gen(rng, n, **gargs))
-            recs = run_cases(comp, cases, pool)
+            # a sequential sample runs in this process under line coverage of the anchored files
+            k_cov = min(len(cases), 80)
+            recs = []
+            if cov is not None and k_cov:
+                cov.start()
+                try:
+                    recs = _run_chunk((comp, cases[:k_cov]))
+                finally:
+                    cov.stop()
+                recs = recs + run_cases(comp, cases[k_cov:], pool)
+            else:
+                recs = run_cases(comp, cases, pool)
             mism = correspond(comp, recs)
             oracle = mod.ORACLES[pid]
             cstat = {"records": len(recs), "mismatches": 0, "oracle_failures": 0, "nontrivial": 0, "impl_errors": 0}
@@ -306,6 +329,16 @@ def main_check(pid, tier, seed, write_evidence=True):
                 if violations:
                     break
         stats["searched"] = searched
+        if cov is not None:
+            lc = {}
+            files = sorted({path for comp, _, _ in spec["components"] for path, _ in anchors.ANCHORS.get(comp, []) if path.endswith(".py")})
+            for path in files:
+                try:
+                    _, stmts, _, missing, _ = cov.analysis2(os.path.join(anchors.REPO, path))
+                    lc[path] = {"statements": len(stmts), "executed": len(stmts) - len(missing), "missing_lines": list(missing)[:40]}
+                except Exception:
+                    pass
+            stats["line_coverage"] = lc
     finally:
         if pool is not None:
             pool.terminate()
@@ -374,6 +407,8 @@ def main_check(pid, tier, seed, write_evidence=True):
                 "samples": samples[:3] if samples else [{"note": "no clean non-trivial record this run"}],
                 "components": stats["components"],
                 "branch_tags": stats["tags"],
+                "source_drift": stats.get("drift", {}),
+                "anchored_line_coverage": stats.get("line_coverage", {}),
                 "failing_input_search_records": stats.get("searched", 0),
                 "known_findings_seen": {k: c for k, (_, c) in known_hits.items()},
                 "explanation": spec.get("explanation", ""),
